@@ -443,6 +443,7 @@ type Options struct {
 	Seed      uint64
 	Workers   int
 	VerifDir  string
+	OutDir    string // evidence and replays are written below this directory (default VerifDir)
 	RunsOverride int
 	NoShrink  bool
 	Quiet     bool
@@ -474,6 +475,9 @@ func RunBatch(opt Options) int {
 		return 2
 	}
 	start := time.Now()
+	if opt.OutDir == "" {
+		opt.OutDir = opt.VerifDir
+	}
 	ff, err := LoadFindings(filepath.Join(opt.VerifDir, "known_findings.json"))
 	if err != nil {
 		fmt.Fprintf(os.Stderr, "known_findings.json unreadable: %v\n", err)
@@ -704,7 +708,7 @@ func RunBatch(opt Options) int {
 				rf.TraceHash = fmt.Sprintf("%016x", out.TraceHash)
 			}
 		}
-		dir := filepath.Join(opt.VerifDir, "replays", ch.ID)
+		dir := filepath.Join(opt.OutDir, "replays", ch.ID)
 		os.MkdirAll(dir, 0755)
 		cls := strings.Map(func(r rune) rune {
 			if (r >= 'a' && r <= 'z') || (r >= 'A' && r <= 'Z') || (r >= '0' && r <= '9') || r == '-' || r == '_' || r == '.' {
@@ -733,7 +737,7 @@ func RunBatch(opt Options) int {
 			rf.Scenario = out.Scenario
 			rf.TraceHash = fmt.Sprintf("%016x", out.TraceHash)
 		}
-		dir := filepath.Join(opt.VerifDir, "replays", ch.ID)
+		dir := filepath.Join(opt.OutDir, "replays", ch.ID)
 		os.MkdirAll(dir, 0755)
 		p := filepath.Join(dir, fmt.Sprintf("%d-%d-%s.json", opt.Seed, e.RunIndex, e.Class))
 		b, _ := json.MarshalIndent(rf, "", " ")
@@ -791,9 +795,9 @@ func RunBatch(opt Options) int {
 		"wall_s":      wall,
 		"violations":  len(unknown),
 	}
-	os.MkdirAll(filepath.Join(opt.VerifDir, "evidence"), 0755)
+	os.MkdirAll(filepath.Join(opt.OutDir, "evidence"), 0755)
 	b, _ := json.MarshalIndent(ev, "", " ")
-	if err := os.WriteFile(filepath.Join(opt.VerifDir, "evidence", ch.ID+".json"), b, 0644); err != nil {
+	if err := os.WriteFile(filepath.Join(opt.OutDir, "evidence", ch.ID+".json"), b, 0644); err != nil {
 		fmt.Fprintf(os.Stderr, "cannot write evidence: %v\n", err)
 		return 2
 	}
@@ -821,6 +825,9 @@ func Replay(path string, verbose bool) int {
 	if rf.Class == "data-race" && !RaceBuild {
 		// replay under the race detector
 		bin := filepath.Join(verifDir(), "bin", "visim-race")
+		if b := os.Getenv("VISIM_BIN"); b != "" {
+			bin = filepath.Join(b, "visim-race")
+		}
 		cmd := exec.Command(bin, "replay", path)
 		cmd.Env = append(os.Environ(), "GORACE=halt_on_error=1 exitcode=66")
 		outb, _ := cmd.CombinedOutput()
